@@ -165,9 +165,9 @@ private:
 		if (!p) return;
 		Context<Func> s = *(Context<Func>*)p;
 		((Context<Func>*)p)->ready = true;
-		for (int i = s.i0; i < s.i1; i += s.s)
+		for (Long i = s.i0; i < s.i1; i += s.s) // (64 bits: near INT_MAX, i + s.s does not fit an int)
 		{
-			s.f(i);
+			s.f((int)i);
 		}
 		s.t->_threadFinished = true;
 	}
